@@ -65,7 +65,7 @@ def u1_problems(s):
                     comps = (obs.real, obs.imag)
                 else:
                     comps = (obs,)
-                if s.scaled:
+                if s.scale != 1 or s.bias != 0:
                     sc, bi = s.scale, s.bias
                     cand = set()
                     try:
